@@ -25,7 +25,7 @@ pub fn def() -> PropDef {
     PropDef {
         id: "C11",
         level: "fault_enumeration",
-        rule: "Generated histories (C02 operation alphabet incl. merges, rollback, gc; 1-4 threads, flush-every-N, merge policies) on SimDir; a fault-free dry run counts the storage operations per kind filter, then for generated fault positions k (fraction of that count; thorough: denser) x mode {once, permanent from k} x kind filter {any, create, append, flush, terminate, atomic_write, sync_directory, delete, open/atomic read, lock files} x thread filter the history is re-run in a child process with the fault injected. Oracle: every API call returns Ok or Err (no panic/abort/hang); after every commit that returned Ok the durable crash image (minimal persistence outcome) opens, passes checksums and equals the model of that commit; after the run, with faults off, a fresh Index::open equals the last successful commit (or the commit whose call failed after publishing its metadata), the failed writer can be dropped or rolled back, a new writer is created and add+commit works. Non-trivial = the fault fired after the first API call; distinct by hash(history, fault spec).",
+        rule: "Generated histories (C02 operation alphabet incl. merges, rollback, gc; 1-4 threads, flush-every-N, merge policies) on SimDir; a fault-free dry run counts the storage operations per kind filter, then for generated fault positions k (fraction of that count; thorough: denser) x mode {once, permanent from k} x kind filter {any, create, append, flush, terminate, atomic_write, sync_directory, delete, open/atomic read, lock files} x thread filter the history is re-run in a child process with the fault injected. Oracle: every API call returns Ok or Err (no panic/abort/hang); after every commit that returned Ok the durable crash image (minimal persistence outcome) opens, passes checksums and equals the model of that commit; after the run, with faults off, a fresh Index::open equals the last successful commit (or the commit whose call failed after publishing its metadata), the failed writer can be dropped or rolled back - optionally after it was used further (add + commit, a merge of all segments, or an explicit garbage collection with the failed writer) - a new writer is created and add+commit works. Non-trivial = the fault fired after the first API call; distinct by hash(history, fault spec).",
         assumptions: vec![
             "faults are injected at Directory-trait operations (the storage API tantivy uses), returned as io::Error",
             "a stalled child (no output and no CPU progress for 20 s) is a hang = violation; a merely slow child is inconclusive",
